@@ -459,6 +459,36 @@ class World:
                     continue
                 self.compare(self.decode(f, f"{name}(conf).{acc}", sid), reg.style(sid, nc),
                              "component-palette", sid, f"(accessor {name}.{acc})")
+            if self.stats["checks"] % 3 == 0:
+                self.check_palette_report(p, f"{name}(conf)", self.accessors(name), reg, nc, strict=name not in REAL)
+        if self.stats["checks"] % 3 == 1:
+            self.check_palette_report(gp, "get_palette()", GLOBAL_ACCESSORS, reg, nc, strict=False)
+
+    def check_palette_report(self, pal, where, accessors, reg, nc, strict):
+        """Palette.make_report(): the line of an accessor ('<accessor>: ...', the layout the repository's tests
+        parse) is coloured with the style of the accessor's syntax id as the configuration resolves it now, and
+        with nothing else.  Layout, order and wording are the package's business."""
+        text = self.sut(f"{where}.make_report", pal.make_report)
+        if not isinstance(text, str):
+            raise Violation("report", "palette-report-not-a-text", f"{where}: {type(text).__name__}")
+        for line in text.split("\n"):
+            try:
+                cells = sgr.parse_cells(line)
+            except ValueError as e:
+                raise Violation("report", "palette-report-line", f"{where}: {line!r}: {e}")
+            acc = "".join(ch for ch, _ in cells).split(":")[0].strip()
+            sid = accessors.get(acc)
+            if sid is None or self.touches_quarantine(reg, sid):
+                continue
+            styles = {st for ch, st in cells if st != PLAIN and not ch.isspace()}
+            want = reg.style(sid, nc)
+            if sid == "" and not styles:
+                continue                # nothing is shown of an empty id: no character carries a style
+            self.stats["palette_report_items"] = self.stats.get("palette_report_items", 0) + 1
+            if len(styles) > 1:
+                raise Violation("report", "palette-report-item", f"{where} line {acc!r}: several styles: {line!r}")
+            self.compare(styles.pop() if styles else PLAIN, want, "palette-report", sid,
+                         f"(line {acc!r} of {where}.make_report())")
 
     def hold(self, conf, reg, name=None):
         """obtain a palette from the configuration now and keep it: whatever becomes global later, it goes on
@@ -544,6 +574,9 @@ class World:
                     continue
                 self.compare(self.decode(f, f"synced {name}.{acc}", sid), greg.style(sid, nc),
                              "synced-palette", sid, f"(accessor {name}.{acc})")
+            # ... and in the palette's report
+            self.check_palette_report(pal, f"synced {name}", self.accessors(name), greg, nc, strict=name not in REAL)
+        self.check_palette_report(gp, "global_palette", GLOBAL_ACCESSORS, greg, nc, strict=False)
 
 
 def fmt_style(st):
